@@ -540,6 +540,9 @@ impl PendingEntryList {
         // The ID range applies with and without a consumer filter, and entries come in ID order
         let start = start.unwrap_or(StreamId::min());
         let end = end.unwrap_or(StreamId::max());
+        if start > end {
+            return Vec::new();
+        }
         
         let iter = self.entries_by_id
             .range(start..=end)
